@@ -4,6 +4,7 @@ import (
 	"context"
 	"fmt"
 	"net/http"
+	"net/http/httptest"
 	"net/url"
 	"slices"
 	"strings"
@@ -101,6 +102,7 @@ func RunC19(t *testing.T, spec kernel.Spec) *kernel.Outcome {
 			c.interleaved(issuers)
 		}
 		c.sibling(tape.Sub("sibling"))
+		c.sharedStrategy(tape.Sub("shared-strategy"))
 		c.issuerTable(tape.Sub("table"))
 		c.hostileDiscovery()
 		o.Log = append([]string{fmt.Sprintf("config: router=%s mode=%s path=%q flags{s256=%v post=%v pkjwt=%v refresh=%v reqobj=%v} caps=%+v endpoints{auth=%s token=%s introspect=%s userinfo=%s revoke=%s end=%s jwks=%s device=%s} abs=%v",
@@ -355,6 +357,67 @@ func (c *c19) sibling(ch *kernel.Chooser) {
 		}
 		if got := fmt.Sprintf("%d %s", g.resp.Status, g.resp.Body); got != want[k] {
 			c.viol("not-truthful-under-concurrency", "discovery/sibling-provider", "the discovery document of %s, served while another provider of the same process was answering discovery (schedule %v), differs from what it answers alone:\n  alone:      %s\n  concurrent: %s", g.label, trace, firstLine(want[k]), firstLine(got))
+		}
+	}
+}
+
+// sharedStrategy: an application builds ONE issuer strategy value (op.IssuerFromHost / op.IssuerFromForwardedOrHost)
+// and hands it to two providers: a public one and one for local development that allows plain http. In either order of
+// construction each provider's document is the one it gives when it has a strategy value of its own.
+func (c *c19) sharedStrategy(ch *kernel.Chooser) {
+	w := c.w
+	mk := func() func(bool) (op.IssuerFromRequest, error) {
+		if ch.Bool(1, 2) {
+			return op.IssuerFromHost("")
+		}
+		return op.IssuerFromForwardedOrHost("")
+	}
+	build := func(strategy func(bool) (op.IssuerFromRequest, error), insecure bool) (http.Handler, error) {
+		conf := *w.Conf
+		node, err := world.BuildOP(w.Store, world.OPConfig{Router: w.Router, Issuer: "https://unused.sim", Config: &conf, Caps: w.Caps, Strategy: strategy, AllowInsecure: insecure,
+			Options: []op.Option{op.WithAccessTokenVerifierOpts(op.WithSupportedAccessTokenSigningAlgorithms(string(w.SigAlg)))}})
+		world.RestoreDefaultEndpoints()
+		if err != nil {
+			return nil, err
+		}
+		return node.Handler, nil
+	}
+	doc := func(h http.Handler, url string) string {
+		rec := httptest.NewRecorder()
+		h.ServeHTTP(rec, httptest.NewRequest("GET", url+"/.well-known/openid-configuration", nil))
+		return fmt.Sprintf("%d %s", rec.Code, rec.Body.String())
+	}
+	refPub, err1 := build(mk(), false)
+	refDev, err2 := build(mk(), true)
+	if err1 != nil || err2 != nil {
+		c.o.Logf("shared strategy: %v %v", err1, err2)
+		return
+	}
+	wantPub, wantDev := doc(refPub, "https://pub.sim"), doc(refDev, "http://dev.sim")
+	shared := mk()
+	var pub, dev http.Handler
+	order := "public first"
+	if ch.Bool(1, 2) {
+		pub, err1 = build(shared, false)
+		dev, err2 = build(shared, true)
+	} else {
+		order = "development first"
+		dev, err2 = build(shared, true)
+		pub, err1 = build(shared, false)
+	}
+	if err1 != nil || err2 != nil {
+		c.o.Logf("shared strategy: %v %v", err1, err2)
+		return
+	}
+	c.o.Probe("providers-built-from-one-issuer-strategy")
+	for i := 0; i < 2; i++ { // each asked twice, alternating
+		if got := doc(pub, "https://pub.sim"); got != wantPub {
+			c.viol("instance-not-isolated", "discovery/shared-issuer-strategy/public", "two providers built from one issuer strategy value (%s; the second with AllowInsecure): the public provider's document differs from the one it gives with a strategy of its own:\n  own:    %s\n  shared: %s", order, firstLine(wantPub), firstLine(got))
+			break
+		}
+		if got := doc(dev, "http://dev.sim"); got != wantDev {
+			c.viol("instance-not-isolated", "discovery/shared-issuer-strategy/development", "two providers built from one issuer strategy value (%s): the development provider's document differs from the one it gives with a strategy of its own:\n  own:    %s\n  shared: %s", order, firstLine(wantDev), firstLine(got))
+			break
 		}
 	}
 }
